@@ -5,6 +5,7 @@ import (
 	"crypto"
 	_ "crypto/sha256"
 	"encoding/hex"
+	"encoding/json"
 	"errors"
 	"fmt"
 	"os"
@@ -87,7 +88,13 @@ func guard(f func() error) (status string) {
 		}
 	}()
 	if err := f(); err != nil {
-		return "err:" + err.Error()
+		msg := err.Error()
+		if i := strings.Index(msg, "writeat "); i >= 0 {
+			if j := strings.LastIndex(msg, ": "); j > i {
+				msg = msg[:i] + "writeat" + msg[j:]
+			}
+		}
+		return "err:" + msg
 	}
 	return "ok"
 }
@@ -128,6 +135,7 @@ type op struct {
 	name   string
 	size   int
 	exsize int
+	fixed  []byte // replay: content followed by exsig; nil = draw from the PRNG
 }
 
 func copyFile(src, dst string) error {
@@ -153,6 +161,9 @@ func runScenario(c *core.Ctx, r *core.Rng, sc *scenario, input []byte, ops []op)
 		st := stepObs{Op: o.kind, Name: hex.EncodeToString([]byte(o.name)), Size: o.size, ExSize: o.exsize}
 		content := r.Bytes(o.size)
 		exsig := r.Bytes(o.exsize)
+		if o.fixed != nil && len(o.fixed) == o.size+o.exsize {
+			content, exsig = o.fixed[:o.size], o.fixed[o.size:]
+		}
 		st.Data = hex.EncodeToString(content) + hex.EncodeToString(exsig)
 		if len(st.Data) > 40000 {
 			st.Data = ""
@@ -453,6 +464,42 @@ func init() {
 			root.Kids = append(root.Kids, stream(r, u16(strings.Repeat("N", 31)), 10))
 			run("many-entries", "46 root streams", Build(&Spec{Root: root, FreeMini: 4}), []op{{kind: "sign", size: 9000, exsize: 32}, {kind: "sign", size: 2000, exsize: 32}})
 		}
+		// digest edge cases: signature-named stream inside a storage; a root name that decodes to the signature name;
+		// a root stream named like the tar metadata member
+		{
+			root := fillNode(r, &Node{Storage: true})
+			root.Kids = append(root.Kids, stream(r, msiName(r, 4), 300))
+			st := fillNode(r, &Node{Storage: true, Name: u16("Sub")})
+			st.Kids = append(st.Kids, stream(r, u16("\x05DigitalSignature"), 77), stream(r, msiName(r, 3), 50))
+			root.Kids = append(root.Kids, st)
+			run("digest-nested-signame", "storage Sub contains a stream named \\5DigitalSignature", Build(&Spec{Root: root}), []op{{kind: "sign", size: 2000, exsize: 32}})
+		}
+		{
+			root := fillNode(r, &Node{Storage: true})
+			root.Kids = append(root.Kids, stream(r, msiName(r, 4), 300))
+			enc := []uint16{5}
+			txt := "DigitalSignature"
+			code := func(c byte) uint16 {
+				switch {
+				case c >= '0' && c <= '9':
+					return uint16(c - '0')
+				case c >= 'A' && c <= 'Z':
+					return uint16(c-'A') + 10
+				default:
+					return uint16(c-'a') + 36
+				}
+			}
+			for i := 0; i < len(txt); i += 2 {
+				enc = append(enc, 0x3800+code(txt[i])+64*code(txt[i+1]))
+			}
+			root.Kids = append(root.Kids, stream(r, enc, 90))
+			run("digest-decoded-signame", "root stream whose MSI-encoded name decodes to \\5DigitalSignature", Build(&Spec{Root: root}), []op{{kind: "sign", size: 2000, exsize: 32}})
+		}
+		{
+			root := fillNode(r, &Node{Storage: true})
+			root.Kids = append(root.Kids, stream(r, msiName(r, 4), 300), stream(r, u16("__exmeta"), 40))
+			run("digest-exmeta-name", "root stream named __exmeta", Build(&Spec{Root: root}), []op{{kind: "sign", size: 2000, exsize: 32}})
+		}
 		// DIFAT growth: 109 FAT sectors nearly full, the signature pushes the FAT to 110 sectors
 		if true {
 			root := fillNode(r, &Node{Storage: true})
@@ -464,6 +511,45 @@ func init() {
 			root.Kids = append(root.Kids, big)
 			run("difat-growth", "512-byte sectors, 109 FAT sectors almost full", Build(&Spec{Root: root}), []op{{kind: "sign", size: 9000, exsize: 32}, {kind: "sign", size: 2000, exsize: 32}})
 		}
+		return nil
+	})
+
+	// replay of one scenario: args = path of a JSON file {"in_hex": ..., "ops": [{"op","name","size","exsize","data"}]}
+	core.Register("c18replay", func(c *core.Ctx) error {
+		if c.Scratch == "" || len(c.Args) < 1 {
+			return errors.New("c18replay needs -scratch and a file argument")
+		}
+		raw, err := os.ReadFile(c.Args[0])
+		if err != nil {
+			return err
+		}
+		var rp struct {
+			InHex string `json:"in_hex"`
+			Kind  string `json:"kind"`
+			Desc  string `json:"desc"`
+			Ops   []struct {
+				Op     string `json:"op"`
+				Name   string `json:"name"`
+				Size   int    `json:"size"`
+				ExSize int    `json:"exsize"`
+				Data   string `json:"data"`
+			} `json:"ops"`
+		}
+		if err := json.Unmarshal(raw, &rp); err != nil {
+			return err
+		}
+		input, err := hex.DecodeString(rp.InHex)
+		if err != nil {
+			return err
+		}
+		var ops []op
+		for _, o := range rp.Ops {
+			nm, _ := hex.DecodeString(o.Name)
+			data, _ := hex.DecodeString(o.Data)
+			ops = append(ops, op{kind: o.Op, name: string(nm), size: o.Size, exsize: o.ExSize, fixed: data})
+		}
+		sc := &scenario{ID: 0, Kind: rp.Kind, Desc: rp.Desc}
+		runScenario(c, &core.Rng{S: c.Seed}, sc, input, ops)
 		return nil
 	})
 
@@ -562,7 +648,11 @@ func init() {
 		}
 		type allocCase struct {
 			ID       int     `json:"id"`
-			Fn       string  `json:"fn"` // free | stream
+			Fn       string  `json:"fn"` // free | stream | tables
+			MSAT     []int32 `json:"msat,omitempty"`
+			MsatList []int32 `json:"msatlist,omitempty"`
+			MSAT2    []int32 `json:"msat2,omitempty"`
+			MsatL2   []int32 `json:"msatlist2,omitempty"`
 			SS       int     `json:"ss"`
 			Short    bool    `json:"short"`
 			Count    int     `json:"count"` // free: requested count; stream: content length
@@ -608,7 +698,19 @@ func init() {
 			}
 			cs := allocCase{ID: id, SS: cdf.SectorSize, Short: r.Chance(50), SAT: conv(cdf.SAT), SSAT: conv(cdf.SSAT),
 				RootNext: int32(cdf.RootStorage().NextSector), RootSize: int64(cdf.RootStorage().StreamSize)}
-			if id%2 == 0 {
+			if id%6 == 5 {
+				cs.Fn = "tables"
+				cs.Short = false
+				cs.Count = r.Pick(0, 1, 200, 1000, 14000, 30000)
+				if cdf.SectorSize > 512 && cs.Count > 1000 {
+					cs.Count = 1200
+				}
+				cdf.VerifMakeFreeSectors(cs.Count, false)
+				cs.SAT = conv(cdf.SAT)
+				cs.MSAT, cs.MsatList = conv(cdf.MSAT), conv(cdf.VerifMsatList())
+				cs.Status = guard(func() error { cdf.VerifAllocSectorTables(); return nil })
+				cs.MSAT2, cs.MsatL2 = conv(cdf.MSAT), conv(cdf.VerifMsatList())
+			} else if id%2 == 0 {
 				cs.Fn = "free"
 				cs.Count = r.Pick(-1, 0, 1, 2, 3, 7, 20, 130, 300)
 				var ret []comdoc.SecID
